@@ -23,6 +23,37 @@ fn err_pos(e: &boa_parser::Error) -> Option<(u32, u32)> {
     }
 }
 
+/// shape of an arithmetic expression statement (numbers, unary minus, + - * /, parentheses) as an S-expression;
+/// anything else is "?" — used to compare boa's tree with the Lean precedence model's
+fn shape(e: &boa_ast::Expression) -> String {
+    use boa_ast::Expression as X;
+    use boa_ast::expression::literal::LiteralKind;
+    use boa_ast::expression::operator::{binary::{ArithmeticOp, BinaryOp}, unary::UnaryOp};
+    match e {
+        X::Literal(l) => match l.kind() { LiteralKind::Int(i) => format!("(num {i})"), LiteralKind::Num(n) => format!("(num {n})"), _ => "?".into() },
+        X::Parenthesized(p) => format!("(paren {})", shape(p.expression())),
+        X::Unary(u) if u.op() == UnaryOp::Minus => format!("(neg {})", shape(u.target())),
+        X::Binary(b) => {
+            let o = match b.op() {
+                BinaryOp::Arithmetic(ArithmeticOp::Add) => "add", BinaryOp::Arithmetic(ArithmeticOp::Sub) => "sub",
+                BinaryOp::Arithmetic(ArithmeticOp::Mul) => "mul", BinaryOp::Arithmetic(ArithmeticOp::Div) => "div", _ => return "?".into(),
+            };
+            format!("(bin {o} {} {})", shape(b.lhs()), shape(b.rhs()))
+        }
+        _ => "?".into(),
+    }
+}
+
+fn script_shape(s: &boa_ast::Script) -> String {
+    use boa_ast::{Statement, StatementListItem};
+    let items = s.statements().statements();
+    if items.len() != 1 { return "?".into(); }
+    match &items[0] {
+        StatementListItem::Statement(st) => match st.as_ref() { Statement::Expression(e) => shape(e), _ => "?".into() },
+        _ => "?".into(),
+    }
+}
+
 fn main() {
     bvh::quiet_panics();
     let mut input = Vec::new();
@@ -57,6 +88,7 @@ fn main() {
                     // strings interned by parsing that do not occur in the source (escape-free sources only make this meaningful)
                     let foreign: Vec<String> = interner.verif_dynamic_strings().into_iter().filter(|s| !s.is_empty() && !src_text.contains(s.as_str())).collect();
                     let p1 = ast1.to_interned_string(&interner);
+                    let shape1 = script_shape(&ast1);
                     let mut interner2 = Interner::default();
                     match parse(p1.as_bytes(), &mut interner2) {
                         Err(e) => serde_json::json!({"id": id, "parse": "ok", "p1": p1, "reparse": "err", "msg": format!("{e}"), "interned": foreign}),
@@ -66,7 +98,7 @@ fn main() {
                             // the second parse of the printed text, through the same interner, must give an equal AST
                             let ast_eq = match parse(p2.as_bytes(), &mut interner2) { Ok(a) => a.statements() == ast2.statements(), Err(_) => false };
                             let p3 = match parse(p2.as_bytes(), &mut interner3) { Ok(a) => a.to_interned_string(&interner3), Err(e) => format!("<err {e}>") };
-                            serde_json::json!({"id": id, "parse": "ok", "p1": p1, "reparse": "ok", "p2": p2, "p3": p3, "ast_eq": ast_eq, "interned": foreign})
+                            serde_json::json!({"id": id, "parse": "ok", "p1": p1, "reparse": "ok", "p2": p2, "p3": p3, "ast_eq": ast_eq, "interned": foreign, "shape": shape1, "shape2": script_shape(&ast2)})
                         }
                     }
                 }
